@@ -253,7 +253,7 @@ class YAMLTrace(Trace_):
             "nlogs": self.nlogs,
             "log_pitch": self.log_pitch,
             "event_log": self.event_log,
-            "weight": self.weight
+            "weight": float(self.weight)
         }
 
         with open(os.path.join(self.location, self.main_log), "w", encoding='utf-8') as f:
